@@ -25,7 +25,8 @@
 EXTENDS Integers, Sequences, SequencesExt, FiniteSets, TLC
 
 CONSTANTS Letters,         \* byte values of ordinary characters, e.g. {97}
-          Extra            \* further characters the bounded generator types: {} or {BS}
+          Extra,           \* further characters the bounded generator types: {} or {BS}
+          BreakInLiterals  \* TRUE: the user may also press Enter inside a literal
 
 SP   == 32                 \* space
 SEMI == 59                 \* ;
@@ -58,6 +59,11 @@ QNext(q, c) == IF q = 0 THEN (IF c \in Quotes THEN c ELSE 0)
 \* lexical states after each character of s (one left-to-right pass; FoldLeft is iterative in TLC)
 QStates(s) == FoldLeft(LAMBDA acc, c : Append(acc, QNext(IF acc = <<>> THEN 0 ELSE acc[Len(acc)], c)), <<>>, s)
 QAt(s, i) == IF i = 0 THEN 0 ELSE QStates(s)[i]   \* state after the first i characters of s
+
+\* what a typed line break amounts to: between tokens it is white space; inside a literal the console enters it as one
+\* blank (mkdb's SQL cannot spell a line break inside a literal), and that blank is part of the literal from then on
+Entered(s) == LET qs == QStates(s)
+              IN  [i \in 1..Len(s) |-> IF s[i] = CR /\ (IF i = 1 THEN 0 ELSE qs[i - 1]) # 0 THEN SP ELSE s[i]]
 
 \* positions of the semicolons that end a statement: those outside literals (ascending)
 TermSeq(s) == LET qs == QStates(s)
@@ -128,9 +134,8 @@ Enter == /\ typed' = Append(typed, CR)
                  /\ inQuote' = QNext(inQuote, SP)
                  /\ UNCHANGED out
 
-\* Environment assumption of C20: line breaks are placed outside literals
-\* (a line break inside a literal is not expressible in mkdb's SQL).
-ConNext == (\E c \in Chars : Key(c)) \/ (inQuote = 0 /\ Enter)
+\* Line breaks are placed between tokens; with BreakInLiterals also inside literals (where they are entered as blanks).
+ConNext == (\E c \in Chars : Key(c)) \/ ((inQuote = 0 \/ BreakInLiterals) /\ Enter)
 
 -----------------------------------------------------------------------------
 (* Properties of the machine                                               *)
@@ -139,15 +144,15 @@ TypeOK == /\ inQuote \in {0, SQ, DQ, -SQ, -DQ}
           /\ inQuote = QAt(buf, Len(buf))
 
 \* what was handed over so far are the first typed statements, nothing else, nothing twice
-OutIsPrefix == /\ Len(out) <= Len(StmtsOf(typed))
-               /\ \A i \in 1..Len(out) : /\ Norm(out[i]) = Norm(StmtsOf(typed)[i])
-                                         /\ Literals(out[i]) = Literals(StmtsOf(typed)[i])
+OutIsPrefix == /\ Len(out) <= Len(StmtsOf(Entered(typed)))
+               /\ \A i \in 1..Len(out) : /\ Norm(out[i]) = Norm(StmtsOf(Entered(typed))[i])
+                                         /\ Literals(out[i]) = Literals(StmtsOf(Entered(typed))[i])
 
 \* after a hand-over nothing typed is left behind
-Faithful == (buf = <<>>) => (Accept(StmtsOf(typed), out) /\ LiteralsIntact(StmtsOf(typed), out))
+Faithful == (buf = <<>>) => (Accept(StmtsOf(Entered(typed)), out) /\ LiteralsIntact(StmtsOf(Entered(typed)), out))
 
 \* the buffer holds exactly what was typed since the last hand-over (up to blanks):
 \* nothing typed is dropped, nothing is kept after it was handed over
 AfterNth(s, n) == IF n = 0 THEN s ELSE SubSeq(s, TermSeq(s)[n] + 1, Len(s))
-BufIsRest == Norm(buf) = Norm(AfterNth(typed, Len(out)))
+BufIsRest == Norm(buf) = Norm(AfterNth(Entered(typed), Len(out)))
 =============================================================================
